@@ -222,7 +222,13 @@ def run_case(ctx, i):
             from .. import gen_cif
             text = gen_cif.single_item_document(rng, '_it.parse', pv)
             errs = []
-            rc, cif = L.parse_bytes(text.encode('utf-8'), None, 'new')
+            data = text.encode('utf-8')
+            if i % 2:
+                # the same document with CR LF terminators, moved by a comment so that one of its terminators - inside
+                # the value if it has any - lies across the first 4096-byte read boundary
+                data = straddle(rng, text)
+                ctx.count('parsed_documents_with_a_terminator_across_a_read_boundary')
+            rc, cif = L.parse_bytes(data, None, 'new')
             if rc != CIF_OK:
                 raise Mismatch('model:cif_parse:0:%d:c07' % rc, 'parsing the document written for the value -> %d\n%s' % (rc, text[:400]))
             rc, b = L.get_block(cif, 'v')
@@ -261,6 +267,26 @@ def run_case(ctx, i):
         ctx.violation(suffix, detail, info)
     ctx.drain_events(info)
     ctx.sample(info, 4)
+
+
+def straddle(rng, text):
+    first, rest = text.split('\n', 1)
+    head = (first + '\n').replace('\n', '\r\n').encode('utf-8')
+    body = rest.replace('\n', '\r\n').encode('utf-8')
+    at = [k for k in range(len(body) - 1) if body[k:k + 2] == b'\r\n']
+    inside = [k for k in at if k > body.find(b'_it.parse')]
+    k = rng.choice(inside or at or [0])
+    need = (4095 - len(head) - k) % 4096
+    while need < 3:
+        need += 4096
+    pad = b''
+    while need > 0:
+        c = min(need, 1400)
+        if 0 < need - c < 3:
+            c -= 3
+        pad += b'#' + b'p' * (c - 3) + b'\r\n'
+        need -= c
+    return head + pad + body
 
 
 def parse_view(v):
